@@ -328,7 +328,26 @@ impl SubCheck for C14 {
                                     let go_payload_struct_elsewhere = lang == Lang::Go
                                         && matches!(&i.kind, Kind::Enum { variants, .. } if variants.iter().any(|v| match &v.payload {
                                             Payload::Newtype(t) => match t.peel() {
-                                                Ty::User { name, .. } => c.ws.files.iter().filter(|g| g.crate_dir != f.crate_dir).flat_map(|g| g.items.iter()).any(|x| x.name == *name && matches!(x.kind, Kind::Struct { .. } | Kind::Alias { .. })),
+                                                // the payload names a struct or alias of another crate, directly or through aliases of the own crate
+                                                Ty::User { name, .. } => {
+                                                    let mut cur = name.clone();
+                                                    let mut foreign = false;
+                                                    for _ in 0..8 {
+                                                        let Some((g, x)) = c.ws.files.iter().flat_map(|g| g.items.iter().map(move |x| (g, x))).find(|(_, x)| x.name == cur) else { break };
+                                                        if g.crate_dir != f.crate_dir && matches!(x.kind, Kind::Struct { .. } | Kind::Alias { .. }) {
+                                                            foreign = true;
+                                                            break;
+                                                        }
+                                                        match &x.kind {
+                                                            Kind::Alias { ty } | Kind::Struct { shape: Shape::Newtype(ty), .. } => match ty.peel() {
+                                                                Ty::User { name, .. } => cur = name.clone(),
+                                                                _ => break,
+                                                            },
+                                                            _ => break,
+                                                        }
+                                                    }
+                                                    foreign
+                                                }
                                                 _ => false,
                                             },
                                             _ => false,
